@@ -31,12 +31,12 @@ let parse_cop (o : string) : cop =
   let arg () = nat_of_int (int_of_string (String.sub o 1 (String.length o - 1))) in
   match o.[0] with
   | 'O' -> CPop (arg ()) | 'T' -> CTry (arg ()) | 'N' -> CNewH | 'H' -> CPushH (arg ()) | 'U' -> CPushU (arg ())
-  | 'D' -> CDie | 'V' -> CMove | _ -> failwith ("bad cop " ^ o)
+  | 'D' -> CDie | 'V' -> CMove | 'X' | 'Y' -> CMovePool (arg ()) | _ -> failwith ("bad cop " ^ o)
 let show_cres (o : string) (r : cres) : string =
   match r with
   | CGot x -> String.make 1 o.[0] ^ string_of_int (int_of_nat x) | CNone -> "T-" | CBlocked -> "O!"
   | CPushed d -> if d then "P1" else "P0" | CNew x -> "N" ^ string_of_int (int_of_nat x)
-  | CDied -> "D" | CMoved -> "V" | CSkip -> "_"
+  | CDied -> "D" | CMoved -> "V" | CPoolMoved -> String.make 1 o.[0] | CSkip -> "_"
 
 let () = iter_lines (fun line ->
   match words line with
